@@ -177,10 +177,12 @@ let distinct_ranks tbl =
 let next_reqctx c =
   let kind = next c in
   let after = int_of_z (next_z c) in
-  (kind, if kind = "live" then None else Some (nat_of_int after))
+  let fday = next_int c in
+  (kind, (if kind = "live" || kind = "fault" then None else Some (nat_of_int after)),
+   (if kind = "fault" then Some (fday, after) else None))
 
 let handle_chart_case c =
-  let (ctx_kind, ctx_after) = next_reqctx c in
+  let (ctx_kind, ctx_after, fault_i) = next_reqctx c in
   let cfg = next_config c in
   let semtbl = next_table c in
   let gotbl = next_table c in
@@ -212,7 +214,10 @@ let handle_chart_case c =
   let reports = List.concat (List.map snd days) in
   let missing = List.exists (fun (p, _) -> not p) days in
   (* ---- model vs implementation *)
-  (match handle_chart_ctx iter_id lt_sem lt_go ctx_after cfg read start end_ with
+  let fault = match fault_i with Some (i, k) -> Some (z_of_int (start_i + i), nat_of_int k) | None -> None in
+  let faulted = match fault_i with Some (i, _) -> i < Array.length darr && fst darr.(i) | None -> false in
+  (match (if fault = None then handle_chart_ctx iter_id lt_sem lt_go ctx_after cfg read start end_
+          else handle_chart_fault iter_id lt_sem lt_go fault cfg read start end_) with
    | ChartOk (name, cd) ->
      (match impl_cd with
       | Some (iname, icd) when status = "ok" ->
@@ -225,7 +230,7 @@ let handle_chart_case c =
    | ChartPanic -> if status <> "panic" then diff "chart-status" ~model:"panic" ~impl:status);
   (* ---- the property on the implementation's output *)
   if missing then begin
-    if status <> "notfound" then
+    if status <> "notfound" && not (faulted && status = "err") then
       prop "missing-day-not-found" (Printf.sprintf "a day of the range has no merged object, the handler answered %s" status)
   end else if status = "panic" then begin
     (* charts() never panics in the model (C13_handle_chart_never_panics), for any configuration *)
@@ -235,7 +240,12 @@ let handle_chart_case c =
   end else begin
     match impl_cd with
     | Some (_, icd) when status = "ok" ->
-      if int_of_nat icd.cd_num <> List.length reports then
+      if faulted && int_of_nat icd.cd_num <> List.length reports then
+        prop "chart-partial-on-read-error"
+          (Printf.sprintf "the reader of the merged object of day %d of the range failed after %d records (connection reset): /chart/ answered ok with NumReports=%d, %d reports are merged in the range"
+             (match fault_i with Some (i, _) -> i | None -> -1) (match fault_i with Some (_, k) -> k | None -> -1)
+             (int_of_nat icd.cd_num) (List.length reports))
+      else if int_of_nat icd.cd_num <> List.length reports then
         prop "num-reports" (Printf.sprintf "%d reports merged in the range, NumReports=%d%s" (List.length reports) (int_of_nat icd.cd_num)
                               (if ctx_kind = "live" then "" else Printf.sprintf " (request context: %s once %d objects had been opened; the handler answered ok)"
                                    ctx_kind (match ctx_after with Some k -> int_of_nat k | None -> 0)))
@@ -250,7 +260,8 @@ let handle_chart_case c =
         prop "partition-value" (clip detail)
       end;
       if not det then prop "chart-deterministic" "the same set of reports (re-run / re-ordered / moved between the days of the range) gave a different chart object"
-    | _ -> prop "chart-status" (Printf.sprintf "all days present, handler answered %s/%s" status tag)
+    | _ -> if not (faulted && status = "err") then
+        prop "chart-status" (Printf.sprintf "all days present, handler answered %s/%s" status tag)
   end
 
 (* ---- seq: a sequence of operations on one set of buckets ---------- *)
@@ -337,11 +348,12 @@ let handle_seq c =
           prop "read-all" (Printf.sprintf "op %d: %d reports stored and merged, read back: %s %d" opi n rtag (List.length read_reps))
       end
     | "chart" ->
-      let (ctx_kind, ctx_after) = next_reqctx c in
+      let (ctx_kind, ctx_after, fault_i) = next_reqctx c in
       ignore ctx_after;
       let start = next_z c in
       let end_ = next_z c in
       let status = next c in
+      let unchanged = next_bool c in
       let tag = next c in
       let impl_cd = if tag = "chartdata" then begin let n = next_bytes c in let cd = next_chartdata c in Some (n, cd) end else None in
       (* the reports the merged objects hold, per the model *)
@@ -349,7 +361,13 @@ let handle_seq c =
       let day_reads = List.init ndays (fun i -> read_state_day dec proj !st (z_of_int (int_of_z start + i))) in
       let all_ok = List.for_all (fun r -> match r with ROk _ -> true | _ -> false) day_reads in
       let reports = List.concat (List.map (fun r -> match r with ROk rs -> rs | _ -> []) day_reads) in
-      (match dostep (OpChart (start, end_)) with
+      let op = match fault_i with
+        | Some (i, k) -> OpChartFault (start, end_, z_of_int (int_of_z start + i), nat_of_int k)
+        | None -> OpChart (start, end_) in
+      let faulted = match fault_i with
+        | Some (i, _) -> (match List.nth_opt day_reads i with Some RNotFound | None -> false | _ -> true)
+        | None -> false in
+      (match dostep op with
        | RespChart (ChartOk (name, cd)) ->
          (match impl_cd with
           | Some (iname, icd) when status = "ok" ->
@@ -361,7 +379,18 @@ let handle_seq c =
        | RespChart ChartBadRequest -> if status <> "bad" then diff "seq-chart-status" ~model:"bad" ~impl:status
        | RespChart ChartPanic -> if status <> "panic" then diff "seq-chart-status" ~model:"panic" ~impl:status
        | _ -> diff "seq-chart-resp" ~model:"?" ~impl:status);
-      if all_ok then begin
+      if faulted then begin
+        if status = "ok" then begin
+          match impl_cd with
+          | Some (_, icd) when int_of_nat icd.cd_num = List.length reports && all_ok -> ()
+          | Some (_, icd) ->
+            prop "chart-partial-on-read-error"
+              (Printf.sprintf "op %d: the reader of a merged object of the range failed after %d records: /chart/ answered ok with NumReports=%d, %d reports are merged in the range"
+                 opi (match fault_i with Some (_, k) -> k | None -> -1) (int_of_nat icd.cd_num) (List.length reports))
+          | None -> prop "rechart-replaces" (Printf.sprintf "op %d: the chart object written is not one JSON chart (%s)" opi tag)
+        end else if not unchanged then
+          prop "chart-partial-on-read-error" (Printf.sprintf "op %d: /chart/ answered %s after a read fault but the chart bucket changed" opi status)
+      end else if all_ok then begin
         if status = "panic" then prop "malformed-goversion" (Printf.sprintf "op %d: handleChart panics" opi)
         else if status <> "ok" then
           prop "rechart-replaces" (Printf.sprintf "op %d: every day of the range is merged from decodable reports, /chart/ answered %s" opi status)
